@@ -9,8 +9,12 @@
 //!   ts=1   TCP timestamps enabled; the generator returns (now_ms + 1000) mod 2^32.
 //! Interface address 10.0.0.1/24, peer 10.0.0.2.  Events (times in ms, integers decimal):
 //!   listen <port> [a=1]          a=1: bind to the interface address instead of "any"
-//!   connect rp=<port> lp=<port>
+//!   connect rp=<port> lp=<port> [ra=4|0|6|60] [la=-|4|0]
+//!                                remote address: peer (4, default), 0.0.0.0 (0), fd00::2 (6), :: (60);
+//!                                local address: chosen by the interface (-), 10.0.0.1 (4), 0.0.0.0 (0)
 //!   send <n> | recv <n> | peek <n> (peek_slice) | peekc <n> (peek) | close | abort
+//!   sendf <k> | recvf <k>        the closure API Socket::send(f) / recv(f): f sees ONE contiguous slice and
+//!                                takes min(k, slice length) octets; `ret <n> [hash hex] sl=<slice length>'
 //!   set timeout=<ms|-> | set keepalive=<ms|-> | set ackdelay=<ms|-> | set nagle=<0|1> | set hoplimit=<n|->
 //!   seg t=<ms> sp=<port> dp=<port> seq=<u32> ack=<u32|-> fl=<subset of SFRP|-> win=<u16> len=<n>
 //!       po=<k>|x<k> mss=<v|-> ws=<v|-> sackp=<0|1> ts=<val:ecr|->
@@ -23,7 +27,8 @@
 //! Observations after every event:
 //!   ret ok | ret E<code> | ret <n> | ret <n> <fnv32> <first bytes hex> | ret PANIC   (API calls)
 //!   tx sp= dp= seq= ack= fl= win= len= mss= ws= sackp= sack= ts= hl= ph=   (every frame emitted, parsed)
-//!   st <STATE>   q <send_queue> <recv_queue>   cap <may_send><may_recv><can_send><can_recv>
+//!   st <STATE>   q <send_queue> <recv_queue>
+//!   cap <may_send><may_recv><can_send><can_recv><is_listening><is_active><is_open>
 //!   pollat <none|now|ms>      (Interface::poll_at at the current time)
 use smoltcp::iface::{Config, Interface, SocketHandle, SocketSet};
 use smoltcp::phy::{ChecksumCapabilities, Medium};
@@ -370,7 +375,20 @@ impl Sim {
                 let rp = opt_i(kv(&toks, "rp")).unwrap() as u16;
                 let lp = opt_i(kv(&toks, "lp")).unwrap() as u16;
                 let s = self.sockets.get_mut::<tcp::Socket>(self.h);
-                let r = s.connect(self.iface.context(), (IpAddress::v4(PEER[0], PEER[1], PEER[2], PEER[3]), rp), lp);
+                let ra = match kv(&toks, "ra") {
+                    None | Some("4") => IpAddress::v4(PEER[0], PEER[1], PEER[2], PEER[3]),
+                    Some("0") => IpAddress::v4(0, 0, 0, 0),
+                    Some("6") => IpAddress::v6(0xfd00, 0, 0, 0, 0, 0, 0, 2),
+                    Some("60") => IpAddress::v6(0, 0, 0, 0, 0, 0, 0, 0),
+                    Some(x) => panic!("bad ra {}", x),
+                };
+                let la = match kv(&toks, "la") {
+                    None | Some("-") => None,
+                    Some("4") => Some(IpAddress::v4(LOCAL[0], LOCAL[1], LOCAL[2], LOCAL[3])),
+                    Some("0") => Some(IpAddress::v4(0, 0, 0, 0)),
+                    Some(x) => panic!("bad la {}", x),
+                };
+                let r = s.connect(self.iface.context(), (ra, rp), IpListenEndpoint { addr: la, port: lp });
                 out.ret = match r {
                     Ok(()) => "ok".into(),
                     Err(tcp::ConnectError::InvalidState) => "E1".into(),
@@ -395,6 +413,40 @@ impl Sim {
                         out.ret = k.to_string();
                     }
                     Err(_) => out.ret = "E1".into(),
+                }
+            }
+            "sendf" => {
+                // closure API: the callback sees one contiguous slice and fills min(k, slice) octets
+                let k: usize = toks[1].parse().unwrap();
+                let off = self.app_off;
+                let r = self.sock().send(|buf| {
+                    let n = k.min(buf.len());
+                    for (i, b) in buf[..n].iter_mut().enumerate() {
+                        *b = app_byte(off + i as u64);
+                    }
+                    (n, (n, buf.len()))
+                });
+                match r {
+                    Ok((n, sl)) => {
+                        self.app_off += n as u64;
+                        out.ret = format!("{} sl={}", n, sl);
+                    }
+                    Err(_) => out.ret = "E1".into(),
+                }
+            }
+            "recvf" => {
+                let k: usize = toks[1].parse().unwrap();
+                let r = self.sock().recv(|buf| {
+                    let n = k.min(buf.len());
+                    (n, (buf[..n].to_vec(), buf.len()))
+                });
+                match r {
+                    Ok((b, sl)) => {
+                        Sim::ret_bytes(out, &b);
+                        out.ret = format!("{} sl={}", out.ret, sl);
+                    }
+                    Err(tcp::RecvError::InvalidState) => out.ret = "E1".into(),
+                    Err(tcp::RecvError::Finished) => out.ret = "E2".into(),
                 }
             }
             "recv" => {
@@ -500,13 +552,19 @@ impl Sim {
         let r = std::panic::catch_unwind(std::panic::AssertUnwindSafe(|| {
             let pa = self.iface.poll_at(now, &self.sockets);
             let s = self.sockets.get_mut::<tcp::Socket>(self.h);
-            (s.state(), s.send_queue(), s.recv_queue(), [s.may_send(), s.may_recv(), s.can_send(), s.can_recv()], pa)
+            (
+                s.state(),
+                s.send_queue(),
+                s.recv_queue(),
+                [s.may_send(), s.may_recv(), s.can_send(), s.can_recv(), s.is_listening(), s.is_active(), s.is_open()],
+                pa,
+            )
         }));
         match r {
             Ok((st, sq, rq, caps, pa)) => {
                 out.lines.push(format!("st {}", state_name(st)));
                 out.lines.push(format!("q {} {}", sq, rq));
-                out.lines.push(format!("cap {}{}{}{}", caps[0] as u8, caps[1] as u8, caps[2] as u8, caps[3] as u8));
+                out.lines.push(format!("cap {}", caps.iter().map(|b| if *b { '1' } else { '0' }).collect::<String>()));
                 out.lines.push(match pa {
                     None => "pollat none".to_string(),
                     Some(t) if t.total_micros() == 0 => "pollat now".to_string(),
